@@ -227,6 +227,9 @@ func (o *oracles) afterStep() {
 		return pending[i].seq < pending[j].seq
 	})
 
+	if w.k.TraceOn {
+		o.annotate(o.prev, snap, pending)
+	}
 	o.snapshotInvariants(snap)
 	o.diff(o.prev, snap, pending)
 	for _, obs := range pending {
@@ -430,22 +433,7 @@ func (o *oracles) diff(prev, snap *scheduler.VerifSnapshot, pending []observatio
 	for i := range prev.Queues {
 		pq := &prev.Queues[i]
 		if findQueue(snap, pq.Key) == nil {
-			due := pq.Timeout
-			if !pq.HasTimeout {
-				// Its last workers may have timed out in this very step.
-				due = time.Time{}
-				for j := range prev.Workers {
-					pw := &prev.Workers[j]
-					if pw.Queue == pq.Key {
-						if pw.InSync {
-							due = snap.Now.Add(time.Hour)
-						} else if pw.Timeout.After(due) {
-							due = pw.Timeout
-						}
-					}
-				}
-				due = due.Add(w.cfg.PlatformQueueWithNoWorkersTimeout)
-			}
+			due := o.queueRemovalDue(prev, pq, snap.Now)
 			if !pq.MayBeRemoved || (pq.Workers == 0 && !pq.HasTimeout) || due.After(snap.Now) {
 				w.violate("C06/queue-removed-early", fmt.Sprintf("queue %v (dynamic=%v removal due %v/%s) disappeared at %s", pq.Key, pq.MayBeRemoved, pq.HasTimeout, pq.Timeout.Format(time.RFC3339), snap.Now.Format(time.RFC3339)))
 			}
@@ -472,6 +460,27 @@ func (o *oracles) diff(prev, snap *scheduler.VerifSnapshot, pending []observatio
 }
 
 func (wa *workerActor) inCallOrJustReturned() bool { return true }
+
+// queueRemovalDue computes when a worker-created queue may be removed: the
+// removal deadline of its last worker plus the configured timeout.
+func (o *oracles) queueRemovalDue(prev *scheduler.VerifSnapshot, pq *scheduler.VerifQueue, now time.Time) time.Time {
+	if pq.HasTimeout {
+		return pq.Timeout
+	}
+	// Its last workers may have timed out in this very step.
+	var due time.Time
+	for j := range prev.Workers {
+		pw := &prev.Workers[j]
+		if pw.Queue == pq.Key {
+			if pw.InSync {
+				return now.Add(time.Hour)
+			} else if pw.Timeout.After(due) {
+				due = pw.Timeout
+			}
+		}
+	}
+	return due.Add(o.w.cfg.PlatformQueueWithNoWorkersTimeout)
+}
 
 func platformStringOf(as *actionSpec) string {
 	return platformKeyString(as.action.Platform)
@@ -588,9 +597,17 @@ func (o *oracles) checkCompletionCause(op, pop *scheduler.VerifOperation, prev, 
 		}
 		w.k.Probe("task_failed_worker_disappeared")
 	case st.Code() == codes.Unavailable && strings.Contains(st.Message(), "disappeared while task was queued"):
-		okCause := pop != nil && findQueue(snap, pop.Queue) == nil
+		// The queue may have been re-created in the same step by the very
+		// worker whose Synchronize call ran the cleanup, so judge by the
+		// deadline, not by the queue's absence.
+		okCause := false
+		if pop != nil {
+			if pq := findQueue(prev, pop.Queue); pq != nil && pq.MayBeRemoved && !(pq.Workers == 0 && !pq.HasTimeout) {
+				okCause = !o.queueRemovalDue(prev, pq, snap.Now).After(snap.Now)
+			}
+		}
 		if !okCause {
-			w.violate("C06/premature-queue-removal", fmt.Sprintf("operation %s failed with %q although its queue still exists", op.Name, st.Message()))
+			w.violate("C06/premature-queue-removal", fmt.Sprintf("operation %s failed with %q before its queue's removal was due", op.Name, st.Message()))
 		}
 		w.k.Probe("task_failed_queue_removed")
 	case st.Code() == codes.Canceled && strings.Contains(st.Message(), "no longer has any waiting clients"):
@@ -885,4 +902,114 @@ func (o *oracles) finish() {
 	}
 	r.Count("streams", nstreams)
 	r.NonTrivial = o.assignments > 0 && (o.maxConcurrentStreams >= 2 || len(w.k.FaultsFired) > 0)
+}
+
+func short(s string) string {
+	if len(s) > 8 {
+		return s[:8]
+	}
+	return s
+}
+
+// annotate describes the state changes of this step in the decision trace.
+func (o *oracles) annotate(prev, snap *scheduler.VerifSnapshot, pending []observation) {
+	k := o.w.k
+	if prev == nil {
+		prev = &scheduler.VerifSnapshot{Now: startTime}
+	}
+	if !snap.Now.Equal(prev.Now) {
+		k.Annotate("scheduler time %s", snap.Now.Sub(startTime))
+	}
+	for i := range snap.Operations {
+		op := &snap.Operations[i]
+		pop := findOp(prev, op.Name)
+		switch {
+		case pop == nil:
+			k.Annotate("new operation %s action=%s stage=%s queue=%v task=%x ops-of-task=%d bg=%v dnc=%v", op.Name[30:], short(op.ActionDigest), op.Stage, op.Queue, op.TaskID&0xffff, op.TaskOps, op.Background, op.DoNotCache)
+		case pop.Stage != op.Stage || pop.Queue != op.Queue || pop.WorkerKey != op.WorkerKey:
+			msg := ""
+			if op.Response != nil {
+				msg = op.Response.Message + " " + op.Response.GetStatus().GetMessage()
+			}
+			k.Annotate("operation %s %s->%s worker=%s queue=%v %s", op.Name[30:], pop.Stage, op.Stage, op.WorkerKey, op.Queue, msg)
+		case pop.Waiters != op.Waiters || pop.HasTimeout != op.HasTimeout:
+			k.Annotate("operation %s waiters=%d removal-pending=%v", op.Name[30:], op.Waiters, op.HasTimeout)
+		}
+	}
+	for i := range prev.Operations {
+		if findOp(snap, prev.Operations[i].Name) == nil {
+			k.Annotate("operation %s removed", prev.Operations[i].Name[30:])
+		}
+	}
+	for i := range snap.Workers {
+		nw := &snap.Workers[i]
+		pw := findWorker(prev, nw.Queue, nw.WorkerKey)
+		if pw == nil {
+			k.Annotate("new worker %s in %v task=%s", nw.WorkerKey, nw.Queue, short(nw.ActionDigest))
+		} else if pw.ActionDigest != nw.ActionDigest || pw.Blocked != nw.Blocked || pw.Terminating != nw.Terminating || pw.TaskID != nw.TaskID {
+			k.Annotate("worker %s task=%s blocked=%v terminating=%v", nw.WorkerKey, short(nw.ActionDigest), nw.Blocked, nw.Terminating)
+		}
+	}
+	for i := range prev.Workers {
+		if findWorker(snap, prev.Workers[i].Queue, prev.Workers[i].WorkerKey) == nil {
+			k.Annotate("worker %s removed", prev.Workers[i].WorkerKey)
+		}
+	}
+	for i := range snap.Queues {
+		nq := &snap.Queues[i]
+		pq := findQueue(prev, nq.Key)
+		if pq == nil {
+			k.Annotate("new queue %v dynamic=%v", nq.Key, nq.MayBeRemoved)
+		} else if len(pq.Drains) != len(nq.Drains) || pq.HasTimeout != nq.HasTimeout {
+			k.Annotate("queue %v drains=%v removal-pending=%v", nq.Key, nq.Drains, nq.HasTimeout)
+		}
+	}
+	for i := range prev.Queues {
+		if findQueue(snap, prev.Queues[i].Key) == nil {
+			k.Annotate("queue %v removed", prev.Queues[i].Key)
+		}
+	}
+	for _, obs := range pending {
+		switch obs.kind {
+		case obsSend:
+			k.Annotate("%s <- message stage=%s done=%v", obs.stream.id, obs.msg.stage, obs.msg.done)
+		case obsStreamEnd:
+			k.Annotate("%s ended: %v", obs.stream.id, obs.stream.err)
+		case obsSyncStart:
+			k.Annotate("%s -> Synchronize %s", obs.worker.name, describeState(obs.req))
+		case obsSyncEnd:
+			k.Annotate("%s <- %s err=%v", obs.worker.name, describeDesired(obs.resp), obs.err)
+		}
+	}
+	for _, c := range o.w.analyzer.calls {
+		k.Annotate("learner #%d (%s action#%d) %s retry=%v bg=%v", c.rec.id, c.rec.kind, c.rec.action.idx, c.call, c.retry, c.bg != nil)
+	}
+}
+
+func describeState(req *remoteworker.SynchronizeRequest) string {
+	cs := req.GetCurrentState()
+	if cs == nil {
+		return "<no state>"
+	}
+	if cs.GetIdle() != nil {
+		return fmt.Sprintf("idle preferIdle=%v", req.PreferBeingIdle)
+	}
+	ex := cs.GetExecuting()
+	if c := ex.GetCompleted(); c != nil {
+		return fmt.Sprintf("completed %s %s status=%s exit=%d", short(ex.ActionDigest.GetHash()), c.Message, codes.Code(c.GetStatus().GetCode()), c.GetResult().GetExitCode())
+	}
+	return "executing " + short(ex.ActionDigest.GetHash())
+}
+
+func describeDesired(resp *remoteworker.SynchronizeResponse) string {
+	if resp == nil {
+		return "<nil>"
+	}
+	switch ds := resp.GetDesiredState().GetWorkerState().(type) {
+	case *remoteworker.DesiredState_Executing_:
+		return "execute " + short(ds.Executing.GetActionDigest().GetHash())
+	case *remoteworker.DesiredState_Idle:
+		return "go idle"
+	}
+	return "carry on"
 }
